@@ -340,12 +340,14 @@ func runProperty(eng *Engine, verifDir, prop, tier string, updateLedger, verbose
 					fresh = append(fresh, k)
 				}
 			}
-			if len(fresh) > 0 && len(g.FV.uncontracted) == 0 {
+			if len(fresh) > 0 && len(g.FV.uncontracted) == 0 && !forbidden(n) {
 				undecided = append(undecided, fmt.Sprintf("%s (%s now calls %s, for which there is no contract)", n, g.FV.short, fresh[0]))
 				continue
 			}
 		}
-		if st != "unsat" && len(g.FV.uncontracted) > 0 {
+		// (a store into the forbidden frame - the parsed program, for C13/C14 - is reported whatever else
+		// the function does: the store instruction is there)
+		if st != "unsat" && len(g.FV.uncontracted) > 0 && !forbidden(n) {
 			// the function calls a repository function that has no contract and cannot be inlined (new
 			// helper with a loop): its body was not followed, the obligations after the call were checked
 			// against an arbitrary heap. A failure here says "needs a contract", not "is wrong": undecided,
